@@ -48,16 +48,87 @@ func scen(format string, a ...interface{}) {
 	fmt.Fprintf(out, "SCEN %s\n", fmt.Sprintf(format, a...))
 }
 
+// A call that is blocked for good stays blocked; a call that is merely slow because the machine is overloaded returns
+// eventually.  The first few expiries of the watchdog are therefore CONFIRMED by waiting ten times longer: if the call
+// returns after all, the machine is slow, nothing is reported and the watchdog is doubled for the rest of the run.  Once
+// a blocked call has been confirmed the short watchdog is trusted again (the verdict is already established and the run
+// must stay short).
+var (
+	confirmsLeft = 3
+	slowdowns    = 0
+)
+
+func waitConfirmed(done <-chan struct{}, d time.Duration) bool {
+	select {
+	case <-done:
+		return true
+	case <-time.After(d):
+	}
+	if confirmsLeft <= 0 {
+		return false
+	}
+	select {
+	case <-done:
+		slowdowns++
+		if watchdog < 24*time.Second {
+			watchdog *= 2
+		}
+		return true
+	case <-time.After(10 * d):
+		confirmsLeft--
+		return false
+	}
+}
+
 // withTimeout runs f and reports whether it returned within the watchdog
 func withTimeout(f func()) bool {
 	done := make(chan struct{})
 	go func() { f(); close(done) }()
-	select {
-	case <-done:
-		return true
-	case <-time.After(watchdog):
-		return false
+	return waitConfirmed(done, watchdog)
+}
+
+// calibrate: how long does one notification take from the write to its delivery on this machine right now?  The watchdog
+// is at least 200 times that (and at least 3 s)
+func calibrate() {
+	dir, _ := os.MkdirTemp("", "vconc")
+	defer os.RemoveAll(dir)
+	w, err := newW(0)
+	if err != nil {
+		return
 	}
+	defer w.Close()
+	w.Add(dir)
+	var worst time.Duration
+	for i := 0; i < 12; i++ {
+		t0 := time.Now()
+		os.WriteFile(filepath.Join(dir, fmt.Sprintf("c%d", i)), nil, 0o644)
+		select {
+		case <-w.Events:
+		case <-time.After(20 * time.Second):
+		}
+		if d := time.Since(t0); d > worst {
+			worst = d
+		}
+		for len(w.Events) > 0 {
+			<-w.Events
+		}
+		drain := time.After(2 * time.Millisecond)
+	dr:
+		for {
+			select {
+			case <-w.Events:
+			case <-drain:
+				break dr
+			}
+		}
+	}
+	if 200*worst > watchdog {
+		watchdog = 200 * worst
+		if watchdog > 30*time.Second {
+			watchdog = 30 * time.Second
+		}
+	}
+	fmt.Fprintf(out, "CALIBRATION worst_delivery_latency=%v watchdog=%v\n", worst, watchdog)
 }
 
 func rec(wd int32, mask, cookie uint32, name string) []byte {
@@ -86,7 +157,13 @@ func newPiped(capEv uint) (*piped, error) {
 		return nil, err
 	}
 	unix.SetNonblock(fds[1], false)
-	w, rfd, err := fsnotify.VerifNewPipedWatcher(capEv, fds[0])
+	var w *fsnotify.Watcher
+	var rfd int
+	err = envRetry(func() error {
+		var e error
+		w, rfd, e = fsnotify.VerifNewPipedWatcher(capEv, fds[0])
+		return e
+	})
 	if err != nil {
 		return nil, err
 	}
@@ -96,6 +173,37 @@ func newPiped(capEv uint) (*piped, error) {
 func (p *piped) shutdown() {
 	unix.Close(p.sock)
 	unix.Close(p.fd)
+}
+
+// envRetry: the per-user limit on inotify instances (fs.inotify.max_user_instances, EMFILE) is shared with every other
+// process of this user.  A creation that fails with EMFILE/ENFILE while THIS process holds only a few inotify
+// descriptors is a shortage of the environment, not a leak of the code under test: wait and retry.  A process that
+// itself holds many descriptors gets the error reported at once.
+func envRetry(mk func() error) error {
+	deadline := time.Now().Add(120 * time.Second)
+	for {
+		err := mk()
+		if err == nil || !(errors.Is(err, unix.EMFILE) || errors.Is(err, unix.ENFILE)) || inotifyFds() >= 48 || time.Now().After(deadline) {
+			return err
+		}
+		envWaits++
+		time.Sleep(250 * time.Millisecond)
+	}
+}
+
+var envWaits int
+
+func newW(capEv uint) (w *fsnotify.Watcher, err error) {
+	err = envRetry(func() error {
+		var e error
+		if capEv == 0 {
+			w, e = fsnotify.NewWatcher()
+		} else {
+			w, e = fsnotify.NewBufferedWatcher(capEv)
+		}
+		return e
+	})
+	return
 }
 
 func inotifyFds() int {
@@ -123,8 +231,30 @@ func fsnotifyGoroutines() int {
 }
 
 func closedWithin(evs chan fsnotify.Event, ers chan error, d time.Duration) (bool, bool) {
+	ec, rc := closedWithin1(evs, ers, d, false, false)
+	if !(ec && rc) && confirmsLeft > 0 { // confirm: see waitConfirmed
+		ec2, rc2 := closedWithin1(evs, ers, 10*d, ec, rc)
+		if ec2 && rc2 {
+			slowdowns++
+			if watchdog < 24*time.Second {
+				watchdog *= 2
+			}
+		} else {
+			confirmsLeft--
+		}
+		return ec2, rc2
+	}
+	return ec, rc
+}
+
+func closedWithin1(evs chan fsnotify.Event, ers chan error, d time.Duration, ec, rc bool) (bool, bool) {
 	deadline := time.After(d)
-	ec, rc := false, false
+	if ec {
+		evs = nil
+	}
+	if rc {
+		ers = nil
+	}
 	for !(ec && rc) {
 		select {
 		case _, ok := <-evs:
@@ -343,11 +473,7 @@ func closeRace(rng *rand.Rand, capEv uint, closers int, withTraffic bool) {
 	before := inotifyFds()
 	var w *fsnotify.Watcher
 	var err error
-	if capEv == 0 {
-		w, err = fsnotify.NewWatcher()
-	} else {
-		w, err = fsnotify.NewBufferedWatcher(capEv)
-	}
+	w, err = newW(capEv)
 	if err != nil {
 		fail("C13", "new-watcher-failed", "%v", err)
 		return
@@ -505,7 +631,7 @@ func resourceCycles(rng *rand.Rand, cycles int) {
 	scen("cycles n=%d", cycles)
 	base := inotifyFds()
 	for i := 0; i < cycles; i++ {
-		w, err := fsnotify.NewWatcher()
+		w, err := newW(0)
 		if err != nil {
 			fail("C13", "new-watcher-failed-in-cycle", "cycle=%d %v", i, err)
 			return
@@ -632,7 +758,7 @@ func bufferSizes(rng *rand.Rand) {
 		for _, pace := range []string{"immediate", "delayed", "bursty"} {
 			d := filepath.Join(dir, fmt.Sprintf("b%d%s", sz, pace))
 			os.Mkdir(d, 0o755)
-			w, err := fsnotify.NewBufferedWatcher(sz)
+			w, err := newW(sz)
 			if err != nil {
 				fail("C13", "new-watcher-failed", "%v", err)
 				return
@@ -670,7 +796,7 @@ func bufferSizes(rng *rand.Rand) {
 			}
 		}
 	}
-	w, _ := fsnotify.NewWatcher()
+	w, _ := newW(0)
 	if cap(w.Events) != 0 {
 		fail("C14", "default-capacity-not-platform-default", "got=%d", cap(w.Events))
 	}
@@ -798,14 +924,14 @@ func otherWatchers(rng *rand.Rand, others int) {
 		os.Remove(filepath.Join(dst, tag+"0"))
 	}
 	run := func(withOthers bool, tag string) []string {
-		w, _ := fsnotify.NewWatcher()
+		w, _ := newW(0)
 		w.Add(dst)
 		var ows []*fsnotify.Watcher
 		stop := make(chan struct{})
 		var wg sync.WaitGroup
 		if withOthers {
 			for i := 0; i < others; i++ {
-				o, err := fsnotify.NewWatcher()
+				o, err := newW(0)
 				if err != nil {
 					continue
 				}
@@ -858,10 +984,10 @@ func otherWatchers(rng *rand.Rand, others int) {
 		fail("C14", "stream-depends-on-other-watchers", "first difference at %d: alone=%q with-others=%q", firstDiff(alone, together), at(alone, firstDiff(alone, together)), at(together, firstDiff(alone, together)))
 	}
 	// a closed Watcher cannot disturb a later one that happens to reuse its descriptor number
-	a, _ := fsnotify.NewWatcher()
+	a, _ := newW(0)
 	a.Add(dst)
 	a.Close()
-	b, _ := fsnotify.NewBufferedWatcher(8)
+	b, _ := newW(8)
 	b.Add(dst)
 	a.Remove(dst)
 	a.Add(dst)
@@ -960,7 +1086,7 @@ func concurrentAPI(rng *rand.Rand, workers, perWorker int, withFsTraffic bool) {
 		os.Mkdir(p, 0o755)
 		paths = append(paths, p)
 	}
-	w, err := fsnotify.NewWatcher()
+	w, err := newW(0)
 	if err != nil {
 		return
 	}
@@ -1092,7 +1218,7 @@ func guard(name string, f func()) {
 	go func() { f(); close(done) }()
 	select {
 	case <-done:
-	case <-time.After(12 * watchdog):
+	case <-time.After(16*watchdog + 10*time.Minute/10):
 		fail("C05", "scenario-hung", "%s: a library call never returned (goroutines: %d readers alive)", name, fsnotifyGoroutines())
 		fail("C07", "deadlock", "%s: a library call never returned", name)
 	}
@@ -1105,6 +1231,7 @@ func main() {
 	flag.Parse()
 	rng := rand.New(rand.NewSource(*seed))
 	thorough := *tier == "thorough"
+	calibrate()
 	has := func(s string) bool { return strings.Contains(","+*what+",", ","+s+",") }
 	if has("pending") {
 		caps := []uint{0, 1, 4, 4096}
@@ -1171,5 +1298,5 @@ func main() {
 			guard("api", func() { concurrentAPI(rng, wk, 2, tr) })
 		}
 	}
-	fmt.Fprintf(out, "SUMMARY scenarios=%d failures=%d\n", nscen, nfail)
+	fmt.Fprintf(out, "SUMMARY scenarios=%d failures=%d waits_for_inotify_instances=%d watchdog_doublings=%d final_watchdog=%v\n", nscen, nfail, envWaits, slowdowns, watchdog)
 }
